@@ -347,8 +347,60 @@ pub fn gen_tuples(rng: &mut Rng, preferred: Domain, n: usize) -> Vec<[f64; 4]> {
     out
 }
 
+/// Replace some numeric parameter values by seeded nearby ones, so that no check
+/// silently depends on the one parameterisation the catalogue happens to list
+/// (an instantiation failure just makes the run trivial)
+pub fn perturb(rng: &mut Rng, def: &str) -> String {
+    let mut out = String::with_capacity(def.len() + 8);
+    for (i, tok) in def.split(' ').enumerate() {
+        if i > 0 {
+            out.push(' ');
+        }
+        let replaced = (|| {
+            let (key, val) = tok.split_once('=')?;
+            if ["grids", "order", "from", "to", "convention", "ellps", "push", "pop", "roll", "unroll", "flip", "xy_in", "xy_out", "z_in", "z_out", "translation", "rotation"].contains(&key) {
+                return None;
+            }
+            let v: f64 = val.parse().ok()?;
+            if !rng.chance(0.35) {
+                return None;
+            }
+            let nv = match key {
+                "zone" => rng.range(1, 60) as f64,
+                "t_epoch" | "t_obs" => *rng.pick(&[1994.0, 2000.0, 2010.5, 2020.0]),
+                "dt" => *rng.pick(&[1.0, 10.0, 1000.0, -5.0]),
+                "lat_0" | "lat_1" | "lat_2" | "lat_ts" | "latc" => (v + rng.range(-10, 10) as f64).clamp(-89.0, 89.0),
+                "lon_0" | "lonc" => v + rng.range(-20, 20) as f64,
+                "k_0" => *rng.pick(&[1.0, 0.9996, 0.99, 1.01]),
+                _ => {
+                    if v == v.trunc() {
+                        v + rng.range(-3, 3) as f64
+                    } else {
+                        v * *rng.pick(&[0.5, 1.0, 2.0, -1.0])
+                    }
+                }
+            };
+            Some(format!("{}={}", key, nv))
+        })();
+        match replaced {
+            Some(t) => out.push_str(&t),
+            None => out.push_str(tok),
+        }
+    }
+    out
+}
+
 /// A seeded definition: catalogue entry, catalogue pipeline or generated pipeline
 pub fn gen_definition(rng: &mut Rng, plain: bool) -> (String, Domain) {
+    let (def, domain) = gen_definition_plain(rng, plain);
+    if rng.chance(0.4) {
+        (perturb(rng, &def), domain)
+    } else {
+        (def, domain)
+    }
+}
+
+fn gen_definition_plain(rng: &mut Rng, plain: bool) -> (String, Domain) {
     let pool = |rng: &mut Rng, table: &'static [Entry]| -> &'static Entry {
         loop {
             let entry = &table[rng.below(table.len())];
